@@ -69,7 +69,7 @@ def install(ctx, module):
         rng_ok = (0 <= a[0] <= TWO_PI) and (0 <= a[1] <= math.pi) and (0 <= a[2] <= TWO_PI)
         mon.check(name, bool(rng_ok), observed=a, expected="angles in [0,2pi]x[0,pi]x[0,2pi]")
         err = float(np.max(np.abs(oracle.euler(*a) - U)))
-        mon.check(name, err <= 1e-6, residual=err, observed=a, expected="euler(angles) rebuilds U within 1e-6",
+        mon.check(name, err <= 1e-6, residual=err, tol=1e-6, observed=a, expected="euler(angles) rebuilds U within 1e-6",
                   detail={"U": U, "rebuild_error": err})
 
     def post_u_to_rod(U_matrix, result):
@@ -83,7 +83,7 @@ def install(ctx, module):
             mon.check(name, False, observed=result, expected="finite 3-vector")
             return
         err = float(np.max(np.abs(oracle.rod_matrix_rational(r) - U)))
-        mon.check(name, err <= 1e-6, residual=err, observed=r, expected="rod(r) rebuilds U within 1e-6", detail={"U": U})
+        mon.check(name, err <= 1e-6, residual=err, tol=1e-6, observed=r, expected="rod(r) rebuilds U within 1e-6", detail={"U": U})
 
     for name, cond in (("euler_to_u", post_euler_to_u), ("rod_to_u", post_rod_to_u), ("form_omega_mat", post_form_omega_mat),
                        ("form_omega_mat_general", post_form_omega_mat_general), ("quart_to_omega", post_quart_to_omega),
